@@ -279,14 +279,16 @@ def orElse' {α : Type} (a : Option α) (b : Unit → Option α) : Option α :=
   | some x => some x
   | none => b ()
 
-/-- `Collection.LoadByToken` -/
-def loadByToken (cfg : Config) (t : Tok) : Option (Nat × Prov) :=
-  let all := (getAudiences cfg.hosts).all
-  let auds := if t.fragment.isEmpty then all.map (Aud.render none) else all.map (Aud.render (some t.fragEsc))
-  if audMatch t.aud auds then
-    if !t.fragment.isEmpty then byTokenId cfg t.fragment
-    else byTokenId cfg (t.iss ++ s ":" ++ t.kid)
-  else if !t.lbtOk then none
+/-- the CA audiences `LoadByToken` compares the token's with: all seven lists, re-rendered with
+    the token's own fragment when it has one -/
+def lookupAuds (cfg : Config) (t : Tok) : List (Str × Str) :=
+  if t.fragment.isEmpty then (getAudiences cfg.hosts).all.map (Aud.render none)
+  else (getAudiences cfg.hosts).all.map (Aud.render (some t.fragEsc))
+
+/-- second half of `LoadByToken`: no audience of the CA matched; the id is taken from
+    `iss` (Kubernetes), `azp`, `tid` or the first audience -/
+def loadByClaims (cfg : Config) (t : Tok) : Option (Nat × Prov) :=
+  if !t.lbtOk then none
   else if t.iss == k8sIssuer then byTokenId cfg (s "k8ssa/k8sSA-default")
   else match t.aud with
     | [] => none
@@ -297,6 +299,13 @@ def loadByToken (cfg : Config) (t : Tok) : Option (Nat × Prov) :=
                  byTokenId cfg t.tid
                else none) fun _ =>
       byTokenId cfg a0.raw
+
+/-- `Collection.LoadByToken` -/
+def loadByToken (cfg : Config) (t : Tok) : Option (Nat × Prov) :=
+  if audMatch t.aud (lookupAuds cfg t) then
+    if !t.fragment.isEmpty then byTokenId cfg t.fragment
+    else byTokenId cfg (t.iss ++ s ":" ++ t.kid)
+  else loadByClaims cfg t
 
 /-! ### claim validation -/
 
@@ -374,9 +383,17 @@ def x5cOp (cfg : Config) (p : Prov) (c : Cr) (now : Int) (op : Op) (t : Tok) : O
 def maxInt64 : Nat := 9223372036854775807
 def certForever : Nat := 18446744073709551615
 
-/-- the validity test of `SSHPOP.authorizeToken(checkValidity)` and `DefaultAuthorizeSSHRenew`;
-    `cast.Int64` of a uint64 above MaxInt64 panics, and it is applied to `ValidBefore` before the
-    "forever" comparison. `lenient` = `AllowRenewalAfterExpiry` (renew only). -/
+/-- the validity test of `SSHPOP.authorizeToken(checkValidity)`: `cast.SafeInt64`, a bound above
+    MaxInt64 is refused, "forever" (2^64-1) has no upper bound. Never aborts. -/
+def certWindowTok (pc : Pop) (now : Int) : Out Unit :=
+  let unixNow := now / ns
+  if pc.after > maxInt64 || unixNow < (pc.after : Int) then .reject .certNotYetValid
+  else if pc.before != certForever && (pc.before > maxInt64 || unixNow ≥ (pc.before : Int)) then .reject .certExpired
+  else .ok ()
+
+/-- the validity test of `DefaultAuthorizeSSHRenew` (controller.go): `cast.Int64` of a uint64 above
+    MaxInt64 panics, and it is applied to `ValidBefore` before the "forever" comparison, so a
+    host certificate valid forever aborts the renew request. -/
 def certWindow (pc : Pop) (now : Int) (lenient : Bool) : Out Unit :=
   let unixNow := now / ns
   if pc.after > maxInt64 then .crash
@@ -389,7 +406,7 @@ def sshpopTok (cfg : Config) (p : Prov) (c : Cr) (now : Int) (op : Op) (t : Tok)
   match t.pop with
   | none => .reject .header
   | some pc => do
-    if checkValidity then certWindow pc now false
+    if checkValidity then certWindowTok pc now
     need c.chain .chain
     need c.sig .signature
     claimsAudSub cfg p now op t
@@ -506,19 +523,73 @@ def authorize (cfg : Config) (now : Int) (op : Op) (t : Tok) : Out Nat := do
 
 /-! ### the six token handlers of `api/`: every control-flow path, as the source has it
 
-  Each path is the sequence of events met from the top of the handler to a `return` (or the end):
-  `A` a call of `a.Authorize`, `Aerr` / `Aok` entering the error branch / falling through the
-  `if err != nil` that guards it, `E:<method>` a call of an authority method that signs, renews,
-  rekeys or revokes, `nott` taking the branch of `Revoke` for a request without token (mTLS),
-  `ret` a return. The harness stage `handlers` re-derives these lists from the source on every run
-  (go/ast) and the driver compares them with this table.
+  Each path is the sequence of events met from the top of the handler to a `return` (or its end):
+  `auth` a call of `a.Authorize`; `authErr` / `authOk` entering the error branch of the
+  `if err != nil` that guards it / falling through; `eff name` a call of an authority method or
+  helper that signs, renews, rekeys or revokes; `noToken` the branch of `Revoke` for a request
+  without token (mTLS); `ret` a return; `unknown` anything the extractor does not recognise.
+  The harness stage `handlers` re-derives these lists from the source on every run (go/ast) and
+  the driver prints this table, so a change of the handlers breaks the correspondence.
 -/
-def handlerPaths : List (String × List (List String)) :=
-  [ ("Sign", [["ret"], ["A", "Aerr", "ret"], ["A", "Aok", "E:SignWithContext", "ret"], ["A", "Aok", "E:SignWithContext"]]),
-    ("SSHSign", []),
-    ("SSHRenew", []),
-    ("SSHRekey", []),
-    ("SSHRevoke", []),
-    ("Revoke", []) ]
+inductive Ev where
+  | auth | authOk | authErr
+  | eff (name : String)
+  | noToken | ret
+  | unknown (what : String)
+  deriving DecidableEq, Repr
+
+def Ev.show : Ev → String
+  | .auth => "A" | .authOk => "Aok" | .authErr => "Aerr"
+  | .eff n => "E:" ++ n
+  | .noToken => "nott" | .ret => "ret"
+  | .unknown w => w
+
+def handlerPaths : List (String × List (List Ev)) :=
+  [
+    ("Sign",
+      [[.auth, .authErr, .ret],
+       [.auth, .authOk, .eff "SignWithContext"],
+       [.auth, .authOk, .eff "SignWithContext", .ret],
+       [.ret]]),
+    ("SSHSign",
+      [[.auth, .authErr, .ret],
+       [.auth, .authOk, .eff "SignSSH"],
+       [.auth, .authOk, .eff "SignSSH", .auth, .authErr, .ret],
+       [.auth, .authOk, .eff "SignSSH", .auth, .authOk, .eff "SignWithContext"],
+       [.auth, .authOk, .eff "SignSSH", .auth, .authOk, .eff "SignWithContext", .ret],
+       [.auth, .authOk, .eff "SignSSH", .eff "SignSSHAddUser"],
+       [.auth, .authOk, .eff "SignSSH", .eff "SignSSHAddUser", .auth, .authErr, .ret],
+       [.auth, .authOk, .eff "SignSSH", .eff "SignSSHAddUser", .auth, .authOk, .eff "SignWithContext"],
+       [.auth, .authOk, .eff "SignSSH", .eff "SignSSHAddUser", .auth, .authOk, .eff "SignWithContext", .ret],
+       [.auth, .authOk, .eff "SignSSH", .eff "SignSSHAddUser", .ret],
+       [.auth, .authOk, .eff "SignSSH", .ret],
+       [.ret]]),
+    ("SSHRenew",
+      [[.auth, .authErr, .ret],
+       [.auth, .authOk, .eff "RenewSSH", .eff "renewIdentityCertificate"],
+       [.auth, .authOk, .eff "RenewSSH", .eff "renewIdentityCertificate", .ret],
+       [.auth, .authOk, .eff "RenewSSH", .ret],
+       [.auth, .authOk, .ret],
+       [.ret]]),
+    ("SSHRekey",
+      [[.auth, .authErr, .ret],
+       [.auth, .authOk, .eff "RekeySSH", .eff "renewIdentityCertificate"],
+       [.auth, .authOk, .eff "RekeySSH", .eff "renewIdentityCertificate", .ret],
+       [.auth, .authOk, .eff "RekeySSH", .ret],
+       [.auth, .authOk, .ret],
+       [.ret]]),
+    ("SSHRevoke",
+      [[.auth, .authErr, .ret],
+       [.auth, .authOk, .eff "Revoke"],
+       [.auth, .authOk, .eff "Revoke", .ret],
+       [.ret]]),
+    ("Revoke",
+      [[.auth, .authErr, .ret],
+       [.auth, .authOk, .eff "Revoke"],
+       [.auth, .authOk, .eff "Revoke", .ret],
+       [.noToken, .eff "Revoke"],
+       [.noToken, .eff "Revoke", .ret],
+       [.noToken, .ret],
+       [.ret]]) ]
 
 end Verif.Token
